@@ -92,6 +92,25 @@ missed.update({
     "C18-J": "StatefulSet statuses carried no revisions",
     "C20-J": "a failing probe was always a refused connection, never a 200 whose body breaks off",
 })
+missed.update({
+    # round 6
+    "C01-K": "the coordinator's period was 0 in every cycle scenario of C01 and no report arrived late (directed scenario: period, slowly answering loaded shard, slow log sink)",
+    "C03-K": "first caught by C16 only; the closed loop's coordinator loaded raw content, never a file with relative paths",
+    "C06-K": "a run never lost eight updates (fault 'every update of one / of all shards fails for k cycles' added)",
+    "C08-L": "nobody used the coordinator's own HTTP API and no sidecar of the process-level runs was out of sync (drifted extra sidecar, operator stop/resume; sys unit registered under C08)",
+    "C09-L": "a persisted idle instant was never ahead of the clock at restart",
+    "C10-L": "the empty assignment was always written as an empty map, never as null or an absent member",
+    "C11-K": "scraping was never stopped while a file was generated",
+    "C11-L": "the grammar had no body_size_limit / target_limit / label length limits",
+    "C12-K": "no scrape took longer than any server-side default timeout (slow-scrape unit through Proxy.Run added)",
+    "C12-L": "no job had a sample_limit next to dropping metric_relabel_configs; an aborted response of a successful scrape panicked out of the harness instead of being judged",
+    "C13-K": "no job had a body_size_limit",
+    "C13-L": "caught as soon as it was run (the first attempt hit a harness file that did not compile at that moment)",
+    "C15-L": "no target carried a discovered job label, so the job name never differed from it",
+    "C16-L": "the kvass processes never ran with --inject.kubernetes-sa-path",
+    "C17-K": "the consumer of the discovery channel never stalled (TestC17Stall added)",
+    "C19-L": "the static shard manager was only used with one replica (TestC19Static added)",
+})
 for f in sorted(glob.glob(os.path.join(os.path.dirname(__file__), "..", "seeded", "*", "meta.json"))):
     m = json.load(open(f))
     rd = open(os.path.join(os.path.dirname(f), "README.md")).read().strip().splitlines()
